@@ -1,0 +1,40 @@
+//go:build verif
+
+package index
+
+// Machine-checked contracts for this package (comment-only; read by the gsv
+// verification-condition generator under /verif). Guarded by the build tag
+// `verif`, so no ordinary build ever sees this file.
+
+//@ func max(a, b int) (r int)
+//@   inline
+//@ func min(a, b int) (r int)
+//@   inline
+
+//@ func firstNonCommonByte(aa, bb []byte) (r int)  property C08
+//@   ensures @bounds 0 <= r && r <= len(aa) && r <= len(bb)
+//@   ensures @common forall k int :: 0 <= k && k < r ==> aa[k] == bb[k]
+//@   ensures @differs r < len(aa) && r < len(bb) ==> aa[r] != bb[r]
+//@   loop 0 invariant 0 <= index && index <= smallerLength
+//@   loop 0 invariant smallerLength <= len(aa) && smallerLength <= len(bb)
+//@   loop 0 invariant smallerLength == len(aa) || smallerLength == len(bb)
+//@   loop 0 invariant forall k int :: 0 <= k && k < index ==> aa[k] == bb[k]
+
+//@ func localPosToBucketPos(pos, fileNum, maxFileSize) (r types.Position)  property C07
+//@   requires pos != 0
+//@   requires pos >= 0
+//@   ensures @value r == wrapu64(fileNum*maxFileSize + pos)
+
+//@ func bucketPosToFileNum(pos, maxFileSize) (ok bool, fileNum uint32)  property C07
+//@   requires maxFileSize > 0
+//@   requires pos == 0 || pos >= 4
+//@   ensures @empty ok <==> pos != 0
+//@   ensures @file ok ==> fileNum == wrapu32((pos - 4) / maxFileSize)
+//@   ensures !ok ==> fileNum == 0
+
+//@ func localizeBucketPos(pos, maxFileSize) (localPos types.Position, fileNum uint32)  property C07
+//@   requires maxFileSize > 0
+//@   requires pos == 0 || pos >= 4
+//@   ensures @empty pos == 0 ==> localPos == 0 && fileNum == 0
+//@   ensures @file pos != 0 ==> fileNum == wrapu32((pos - 4) / maxFileSize)
+//@   ensures @local pos != 0 ==> localPos == wrapu64(pos - fileNum*maxFileSize)
